@@ -25,6 +25,8 @@ What is proved instead, for ALL disk images, ALL writer histories and BOTH sourc
   * `rock_crash_image_hit_partial`: the same for the image left by any sequence of completed slot writes;
   * `rock_fresh_position_hit_complete`: when only one swap-out ever wrote cells that hash to the position, no
     hypothesis about links is needed: crash at ANY write boundary of that swap-out is safe;
+  * `rock_rebuild_survives`: the rebuild of a position never dies on cells whose size fields are not all-ones
+    ("it starts successfully"; the whole-image statement for arbitrary images is C57's);
 and, for ufs/aufs, without any exclusion:
   * `ufs_post_crash_hit_was_complete_pre_crash`: after ANY prefix of ANY event history the run time can produce (torn
     file writes are shorter appends, a torn log record is no event), a hit after the dirty-log rebuild delivers all
@@ -32,6 +34,7 @@ and, for ufs/aufs, without any exclusion:
   * `ufs_crash_prefix_allowed`, `ufs_torn_append_allowed`: prefixes and torn appends of allowed histories are allowed.
 -/
 import SquidModel.Rock.CrashTxn
+import SquidModel.Rock.CrashSurvive
 import SquidModel.Ufs.CrashLemmas
 
 namespace SquidModel.C16
@@ -85,6 +88,13 @@ theorem rock_fresh_position_hit_complete (cfg : Cfg) (slots : Nat) (foreign : In
   simp at ht'
   subst ht'
   exact ⟨hk, hl, hall⟩
+
+/-- "It starts successfully": the rebuild of a position can only die on one of the two all-ones size `assert`s of
+    `addSlotToEntry` / `startNewEntry`; on cells whose size fields are below 2^64-1 (everything squid writes, torn or not: the
+    payload size is a 32-bit field, entry sizes are bounded by max-size) it never does, whatever else the cells contain. -/
+theorem rock_rebuild_survives {τ : Type} (cfg : Cfg) (slots : Nat) (foreign : Int → Option (Nat × Int)) (cells : List (Cell τ))
+    (h : ∀ c ∈ cells, c.Tame) : ∀ why, (posRebuild cfg slots foreign cells).state ≠ .crashed why :=
+  posRebuild_alive cfg slots foreign cells h
 
 /-! #### witnesses -/
 
